@@ -61,6 +61,19 @@ FRAGMENTS = [
     "(2d Cir. 2001)",
     "at 44",
     "Chase Manhattan",
+    # statute sections with subsections; whitespace variants; long case names; a nameless later citation
+    "42 U.S.C. § 405(r)(2)",
+    "Ala. Code § 12(a)",
+    "550 U.S. 544 , at 554-555",
+    "1 U.S. 1, 5 (1999) (  holding that x is y)",
+    "2 F.3d 2 (2d Cir. 1993) ( en banc )",
+    "Smith v. Board of County Commissioners of the County of Santa Fe and Others, 410 U.S. 113, 93 S. Ct. 705, 35 L. Ed. 2d 147 (1973)",
+    "Roe v. Wade, 410 U.S. 113. The same court, in a later and entirely unrelated appeal that raised quite different questions of law and of fact, said so again, 500 F.2d 100 (5th Cir. 1974)",
+    "Smith v. Smith, 410 U.S. 113 (1973)",
+    "Smith at 121",
+    "3 Rob. 5",
+    "1 Wash. 1 (1870)",
+    "1 H. 2",
 ]
 
 HOSTILE = [
